@@ -133,10 +133,11 @@ Recv == Docs(f)
 
 InvDocumentOrder == ph = "q" => DocumentOrder(f, Recv, q.qs, q.deep)
 InvRootsDedup    == ph = "q" => RootsDedup(f, Recv, q.qs, q.deep)
-InvExact         == ph = "q" => ExactWhenNoRaise(f, Recv, q.qs, q.deep) /\ LoBelowHi(f, Recv, q.qs, q.deep)
+InvExact         == ph = "q" => RaisingNeverMatches(f, Recv, q.qs, q.deep)
 InvAlgebra       == ph = "t" => \A i \in DOMAIN Values :
                         /\ Algebra(t, Atom("eq", FALSE, X), Values[i])
                         /\ Algebra(t, Not(Atom("lt", FALSE, IV(2))), Values[i])
+InvStrict        == ph = "t" => \A j \in DOMAIN Values : StrictLaw(t, Values[j])
 InvCaseless      == ph = "t" => \A i \in DOMAIN t : \A j \in DOMAIN Values :
                         t[i].op = "atom" => CaselessLaw(t[i], Values[j])
 
